@@ -333,11 +333,8 @@ func (v *variablesVisitor) traverseFieldDefinitionType(fieldTypeDefinitionNodeKi
 				return
 			}
 
-			// An undefined required input field is valid if it has a default value
-			if v.definition.InputValueDefinitionHasDefaultValue(inputFieldRef) {
-				return
-			}
 			v.renderVariableRequiredNotProvidedError(fieldName, typeRef)
+			return
 		}
 
 		v.traverseFieldDefinitionType(fieldTypeDefinitionNodeKind, fieldName, jsonValue, v.definition.Types[typeRef].OfType, inputFieldRef)
@@ -452,6 +449,11 @@ func (v *variablesVisitor) traverseNamedTypeNode(jsonValue *astjson.Value, typeN
 			fieldName := v.definition.InputValueDefinitionNameBytes(inputFieldRef)
 			fieldTypeRef := v.definition.InputValueDefinitionType(inputFieldRef)
 			objectFieldValue := jsonValue.Get(unsafebytes.BytesToString(fieldName))
+			// An undefined input field is valid if it has a default value; an explicit
+			// null and the items of a list value are validated like any other value.
+			if objectFieldValue == nil && v.definition.InputValueDefinitionHasDefaultValue(inputFieldRef) {
+				continue
+			}
 
 			v.pushObjectPath(fieldName)
 			v.traverseFieldDefinitionType(fieldTypeDefinitionNode.Kind, fieldName, objectFieldValue, fieldTypeRef, inputFieldRef)
